@@ -29,7 +29,7 @@ YOUR TASK: make ONE realistic change to the source code under /tmp/wt_{sid}/Aege
 {focus}
 Deliverables, all under /tmp/seed/{sid}/ :
  1. patch.diff  - `git -C /tmp/wt_{sid} diff` of your change (source files only; must apply with `git apply` on the unmodified commit).
- 2. demo.py     - a small self-contained program (python, using only what /venv provides; temporary files under /dev/shm or /tmp/seed/{sid}) that exits 0 on the UNMODIFIED code and exits non-zero (printing what went wrong) on the modified code, demonstrating that the property is broken. Run it yourself both ways: with your change applied, and after `git -C /tmp/wt_{sid} stash` (then `git -C /tmp/wt_{sid} stash pop`). It must run with cwd=/tmp/wt_{sid} as `/venv/bin/python /tmp/seed/{sid}/demo.py` in under two minutes.
+ 2. demo.py     - a small self-contained program (python, using only what /venv provides; temporary files under /dev/shm or /tmp/seed/{sid}) that exits 0 on the UNMODIFIED code and exits non-zero (printing what went wrong) on the modified code, demonstrating that the property is broken. Run it yourself both ways: with your change applied, and on the unmodified code - for the latter use a copy made with `git -C /tmp/wt_{sid} archive HEAD AegeanTools | tar -x -C /dev/shm/{sid}_orig` and run the demo with that directory as cwd; NEVER use `git stash` (the stash is shared between all worktrees of the repository and other people are working in parallel). It must run with cwd=/tmp/wt_{sid} as `/venv/bin/python /tmp/seed/{sid}/demo.py` in under two minutes.
  3. notes.txt   - 5-10 lines: what you changed and why it is plausible, which clause of the property it breaks, what exactly is needed for it to manifest (the specific input / configuration / schedule / sequence), and the tail of the test-suite output with your change applied.
 Test suite command (takes 30 s - 8 min depending on machine load; run it with your change applied and make sure it reports no failures; redirect the output to a file instead of piping it):
    cd /tmp/wt_{sid} && /venv/bin/python -m pytest -q -p no:cacheprovider --timeout=900 -x > /tmp/seed/{sid}/pytest.log 2>&1; tail -5 /tmp/seed/{sid}/pytest.log
